@@ -48,7 +48,10 @@ impl TransportCost for M { fn duration(&self, _: &Route, from: Location, to: Loc
 #[cfg(kani)]
 mod h {
     use super::*;
-    fn t() -> Float { let v: u8 = kani::any(); v as Float }
+    /// integer-valued times; the value range is a per-harness bound (RANGE)
+    static mut RANGE: u8 = 255;
+    #[allow(static_mut_refs)]
+    fn t() -> Float { let v: u8 = kani::any(); kani::assume(v <= unsafe { RANGE }); v as Float }
     /// forward replay (the contract of update_schedules, U03a): arrive, wait for the window, serve, drive on.
     /// returns true iff every job activity is reached within its window
     fn replay<const N: usize>(m: &M, acts: &mut [Activity; N], dep0: Float) -> bool {
@@ -102,8 +105,8 @@ mod h {
         kani::cover!(r.is_some());
         kani::cover!(r.is_none());
     }
-    #[kani::proof] #[kani::unwind(6)] fn advance_whole_tour_2_jobs() { advance::<3>(true) }
+    #[kani::proof] #[kani::unwind(6)] fn advance_whole_tour_2_jobs() { unsafe { RANGE = 15; } advance::<3>(true) }
     #[kani::proof] #[kani::unwind(6)] fn advance_first_leg_2_jobs() { advance::<3>(false) }
-    #[kani::proof] #[kani::unwind(7)] fn advance_whole_tour_3_jobs() { advance::<4>(true) }
+    #[kani::proof] #[kani::unwind(7)] fn advance_whole_tour_3_jobs() { unsafe { RANGE = 7; } advance::<4>(true) }
     #[kani::proof] #[kani::unwind(5)] fn advance_whole_tour_1_job() { advance::<2>(true) }
 }
